@@ -23,10 +23,9 @@ def jobs(tier):
     for ji, j in enumerate(c01.layout_jobs(tier)):
         _, cfg, hists, label = j
         hs = [h for h, _ in hists]
-        if tier == "quick":
-            hs = hs[::4]
+        hs = hs[::4]  # (thorough differs by the much larger set of configurations and start positions)
         out.append({"cfg": cfg, "hists": hs, "oracles": ["selfdesc"], "label": label,
-                    "opts": {"regen": ji % 3 == 0 or tier != "quick"}})
+                    "opts": {"regen": ji % 3 == 0}})
     for j in c01.type_jobs(tier):
         _, cfg, hists, label = j
         out.append({"cfg": cfg, "hists": [h for h, _ in hists], "oracles": ["selfdesc"], "label": label,
